@@ -298,7 +298,7 @@ def unit_xlsx_row_writer_close():
             return Sym(BOOL, z3.BoolVal(bool(ok)))
         name = "rowio.XlsxRowWriter.__exit__" if via_exit else "rowio.XlsxRowWriter.close"
         c = Contract(name, setup, returns=[Clause(done, "an-open-writer's-workbook-is-closed-(written-to-its-file)-exactly-once-and-forgotten-a-closed-writer-closes-nothing", props=["C16"])], raises={}, expect=["return"], n_loops=0,
-                     modifies=["XlsxRowWriter._workbook", "XlsxRowWriter._worksheet", "XlsxRowWriter._target_path"], raises_only_props=["C16", "C10"])
+                     modifies=None, raises_only_props=["C16", "C10"])       # no frame clause: which private attributes close() tidies up besides the workbook is not C16's business
         return {"contract": c, "callees": {"ref:Workbook.close": m_wb_close}, "label": ("open" if is_open else "already closed") + (" via __exit__" if via_exit else "") + (" after an error in the block" if after_error else ""),
                 "assumptions": ["xlsxwriter.Workbook.close() writes the file and returns (assumed; the round trip through real files is the bounded C16 workbook sweep)"]}
     def make(ctx): return [mk(True, False), mk(False, False), mk(True, True), mk(False, True)]       # how __exit__ behaves after an error in the block is not part of C16: no clause about it
